@@ -94,3 +94,24 @@ def run_release_proofs(ctx, prop):
             RSG.rule_r22_partition(ctx, prog, rule=rule)
         elif r == "R21":
             RSG.rule_r21_compaction(ctx, prog, rule=rule)
+
+
+def run_release_profile(ctx, prop):
+    """the whole property once more on the release-profile MIR (no debug assertions, no overflow checks, other temporaries):
+    every obligation that holds on the dev profile must hold there too.  The zone analysis (R18) discharges overflow *asserts*,
+    which the release profile does not have: its floors are not applicable there."""
+    from . import core, props
+
+    class RelCtx(core.Ctx):
+        def prog(self, profile="dev"):
+            return core.Ctx.prog(self, "rel")
+    rc = RelCtx(prop, "thorough")
+    props.PROPS[prop](rc)
+    known = {k["key"] for k in core.load_known() if k["property"] == prop and k.get("status") == "known"}
+    bad = [o for o in rc.obs if not o["ok"] and o["key"] not in known
+           and not (o["rule"].startswith("R18") and "anchor-missing" in o["key"])]
+    ctx.extras["release_profile"] = {"obligations": len(rc.obs), "failed": [o["key"] for o in bad]}
+    ctx.ob("REL", "release-profile/all-obligations", not bad, "",
+           "all %d obligations of this property also hold on the release-profile MIR" % len(rc.obs) if not bad else
+           "on the release-profile MIR these obligations fail: %s" % "; ".join("%s (%s)" % (o["key"], o["detail"][:120]) for o in bad[:3]),
+           what="release build differs")
